@@ -45,6 +45,11 @@ fn main() {
             let rf = load_replay(&path);
             let code = match rf.engine.as_str() {
                 "R" => replay_with(&reader::ReaderEngine, &rf, &path),
+                "K16" => {
+                    let c = replay_with(&client::ClientEngine { prop: "C16" }, &rf, &path);
+                    client::pty::cleanup_workdirs();
+                    c
+                }
                 "T12" => replay_with(&tracker::TrackerEngine { prop: "C12" }, &rf, &path),
                 "T13" => replay_with(&tracker::TrackerEngine { prop: "C13" }, &rf, &path),
                 "T14" => replay_with(&tracker::TrackerEngine { prop: "C14" }, &rf, &path),
@@ -73,6 +78,13 @@ fn check(prop: &str, tier: &str) -> i32 {
             };
             let cfg = BatchCfg::from_env(tier, 60_000, 4_000_000, 120.0, 1500.0);
             run_batch(&tracker::TrackerEngine { prop: p }, &cfg).exit_code
+        }
+        "C16" => {
+            let mut cfg = BatchCfg::from_env(tier, 1_500, 250_000, 240.0, 1800.0);
+            cfg.shrink_budget = 400;
+            let r = run_batch(&client::ClientEngine { prop: "C16" }, &cfg).exit_code;
+            client::pty::cleanup_workdirs();
+            r
         }
         _ => harness_error(&format!("no check for property {prop}")),
     }
